@@ -26,7 +26,7 @@ def _fn_obj(c, name, tooled=False, wrapped=None, extra=None):
     return o
 
 
-@unit("_dig", ["C13"], [S + ":_dig", U + ":is_tooled"], mode="bounded", bound="decorator chains (__wrapped__) of length <= 3, optional property at the end")
+@unit("_dig", ["C13", "C14", "C10"], [S + ":_dig", U + ":is_tooled"], mode="bounded", bound="decorator chains (__wrapped__) of length <= 3, optional property at the end")
 def u_dig(c):
     """_dig follows __wrapped__ until it reaches a tooled function or the end of the chain, then property.fget; terminates."""
     it = Interp(c)
